@@ -34,7 +34,7 @@ impl Writer {
 //@extract src/writer.rs | impl<D: Distance> Writer<D> | incremental_index_large_descendants
 //@attr #[verifier::exec_allows_no_decreases_clause]
 //@ghostparam Ghost(rs): Ghost<Seq<u32>>
-//@hint before <<<while let Some(descendant_id) = large_descendants.select(0) {>>>
+//@hint start <<<>>>
         let ghost v0 = wtxn.view(); let ghost i = self.index; let ghost m0 = tmap(v0, i); let ghost cap = cap_of(options, self.dimensions);
 //@loop 0
         invariant
@@ -81,7 +81,7 @@ impl Writer {
             proof {
                 assert(tmp_nodes.rm() == rm);
                 assert(mk_fresh(ma, t, tk, al, sel, cap, root_id, nb_new_tree_nodes, frozen_reader.leafs)) by {
-                    assert forall|x: u32| #![trigger ma.contains_key(x)] ma.contains_key(x) implies tk.contains(x) by { assert(va.contains_key(tkey(i, x))); }
+                    assert forall|x: u32| #![trigger ma.contains_key(x)] ma.contains_key(x) implies tk.contains(x) by { assert(va.contains_key(tkey(i, x))); assert(wtxn.has_tree(i, x)); }
                 }
                 lemma_remap_ok(ma, t, tk, al, sel, cap, root_id, nb_new_tree_nodes, d, frozen_reader.leafs);
             }
@@ -104,7 +104,7 @@ impl Writer {
                         assert forall|k: AKey| !(k.index == i && k.kind == NodeMode::Tree) implies (#[trigger] v0.contains_key(k) == vd.contains_key(k) && (v0.contains_key(k) ==> v0[k] == vd[k])) by { assert(v0.contains_key(k) == va.contains_key(k)); }
                     }
                 }
-//@hint before <<<let descendants_became_too_large = self.insert_items_in_current_trees(>>>
+//@hint before <<<self.insert_items_in_current_trees(>>>
             let ghost vb = wtxn.view(); let ghost mb = tmap(vb, i);
             proof {
                 assert(iter__0.seq@.take(iter__0.seq@.len() as int) =~= iter__0.seq@);
@@ -134,10 +134,11 @@ impl Writer {
                 }
                 assert forall|id: u32| rest.contains(id) implies vb.contains_key(ikey(i, id)) by { assert(its.contains(id)); assert(va.contains_key(ikey(i, id))); assert(v0.contains_key(ikey(i, id))); }
             }
-//@hint afterstmt <<<let descendants_became_too_large = self.insert_items_in_current_trees(>>>
-            let ghost vc = wtxn.view(); let ghost mc = tmap(vc, i); let ghost lg = descendants_became_too_large@;
+//@loopend 0
+            // (stated over the state at the end of the iteration only: no local of the body is named, so the script survives edits of the queue update)
             proof {
-                let r1 = choose|r1: Seq<u32>| r1.len() == 1 && r1[0] == d && #[trigger] iict_inv(mb, mc, r1, rest, lg, cap);
+                let vc = wtxn.view(); let mc = tmap(vc, i);
+                let (r1, lg) = choose|r1: Seq<u32>, lg: Set<u32>| r1.len() == 1 && r1[0] == d && #[trigger] iict_inv(mb, mc, r1, rest, lg, cap) && large_descendants@ == lq.remove(d).union(lg);
                 assert(r1 =~= seq![d]);
                 lemma_incr_iter(ma, mb, mc, al, d, sel, rest, lg, cap);
                 lemma_incr_step(m0, ma, mc, rs, lq, lq.remove(d).union(lg), cap, d, tnodes(mc, tn(d)).remove(d), lg);
